@@ -404,3 +404,55 @@ def first_block_is_the_first_matching_child(k: int, exact: bool, a0: bool, a1: b
         gt = a.getFirstBlockByType("fuel")
         want = 0 if t0 else (1 if t1 else (2 if k > 2 else -1))
         assert (gt is None) if want < 0 else same(gt, cs[want])
+
+
+# ---------------------------------------------------------------------------------------------- leaf components by name / by class
+@lemma(gen={"n": (1, 4), "p2": (0, 1), "p3": (0, 2)})
+def components_by_name_and_by_class_are_the_naive_selection(n: int, p2: int, p3: int, c1: bool, c2: bool, c3: bool, f1: bool, f2: bool, f3: bool):
+    """shapes <= 4 nodes; every childless node below the root is a real Component (c_i) or an empty Composite; node i is
+    called "fuel" (f_i) or by its own name.  getComponentByName: the one leaf component of that name, None without one,
+    refused with several (an inner node of that name is no component and does not count); getComponentNames: the set
+    of the leaf components' names; getComponentsOfShape(cls): the leaf components that are instances of cls, in walk
+    order; the tree is left as it was."""
+    n = choose(n, 1, 4)
+    p2 = choose(p2, 0, 1)
+    p3 = choose(p3, 0, 2)
+    par = [0, 0, p2, p3]
+    isComp = [False, c1, c2, c3]
+    isFuel = [False, f1, f2, f3]
+    nodes = []
+    for i in range(n):
+        leaf = len(kids(n, par, i)) == 0 and i > 0
+        nm = "fuel" if isFuel[i] else "n%d" % i
+        if leaf and isComp[i]:
+            nodes.append(new(Component, name=nm, parent=None, _children=[], p=new(PStub, type="t")))
+        else:
+            nodes.append(new(Composite, name=nm, parent=None, _children=[], p=new(PStub, type="t")))
+    for i in range(1, n):
+        nodes[par[i]]._children.append(nodes[i])
+        nodes[i].parent = nodes[par[i]]
+    pre = preorder(n, par, 0)
+    comps = [j for j in pre if j > 0 and len(kids(n, par, j)) == 0 and isComp[j]]
+    named = [j for j in comps if isFuel[j]]
+    try:
+        got = nodes[0].getComponentByName("fuel")
+        raised = False
+    except ValueError:
+        raised = True
+    assert raised == (len(named) > 1), "several components of one name are refused, nothing else is"
+    if not raised:
+        if len(named) == 0:
+            assert got is None
+        else:
+            assert same(got, nodes[named[0]]), "the one leaf component of that name"
+    assert nodes[0].getComponentByName("absent") is None
+    names = nodes[0].getComponentNames()
+    assert len(names) == len(set(("fuel" if isFuel[j] else "n%d" % j) for j in comps))
+    for j in comps:
+        assert ("fuel" if isFuel[j] else "n%d" % j) in names
+    assert same_seq(nodes[0].getComponentsOfShape(Component), [nodes[j] for j in comps]), "instances of the class, walk order"
+    assert same_seq(nodes[0].getComponentsOfShape(Assembly), []), "no component is an assembly"
+    for i in range(1, n):
+        assert same(nodes[i].parent, nodes[par[i]])
+    for i in range(n):
+        assert same_seq(nodes[i]._children, [nodes[j] for j in kids(n, par, i)])
